@@ -232,8 +232,11 @@ def ownership_obligations(world, prop='C08'):
                                                                '__delitem__'):
                     continue
                 for e in fi.effects.values():
-                    if e.origin.startswith('F:') and not e.origin.endswith('/'):
-                        mutated.setdefault(e.origin[2:], []).append((fi.qualname, e))
+                    # F:a  = the object held by field a;  F:a/ = what it contains or a view of
+                    # it (self._error[slc]): a write through either changes what parent and
+                    # child both read
+                    if e.origin.startswith('F:'):
+                        mutated.setdefault(e.origin[2:].rstrip('/'), []).append((fi.qualname, e))
         fhash = src_hash(ast.dump(gi.node))
         # cached lazy values are re-sliced into the child (a basic slice of an array is a view of
         # the parent's cached array), so they are shared state too
